@@ -52,7 +52,8 @@ ASBUILT = {
            "outside the fuzzer before it counts. A further part changes the interpreter's int->text digit limit at run time "
            "(0 = unlimited, 640 … 9000) and re-asks the declared-set question for integers just below / at / above / twice the "
            "limit in force: 'can render as text' is a statement about the current setting, not the one at import time.",
-    "C05": "Built as designed (`props/c05.py`), plus a few packets around and beyond one mebibyte (2^20-1 … 2^22+1, coarse fragments); the kernel-socketpair part runs in both tiers (few cases in quick) with a watchdog that "
+    "C05": "Built as designed (`props/c05.py`), plus a few packets around and beyond one mebibyte (2^20-1 … 2^22+1, coarse fragments) and injected I/O faults that raise "
+           "connection-class errors, other errnos (EHOSTUNREACH, ENETDOWN, ENOBUFS, EIO) or a timeout while writing; the kernel-socketpair part runs in both tiers (few cases in quick) with a watchdog that "
            "turns a reader waiting for bytes nobody sent into a reported failure instead of a hang.",
     "C06": "Built as designed; the grid turned out cheap enough (≈ 220 000 evaluations in ≈ 6 s) to be enumerated **completely in the "
            "quick tier as well**: 2⁷ switches × 4 prefixes × 17 name classes × 4 shapes × 7 operations (get, set, delete, call, and the "
@@ -73,7 +74,9 @@ ASBUILT = {
            "exception for an already answered sequence number, or invents sequence numbers (the response must go to its own request and "
            "to no other). Handler outcomes include `SystemExit`/`GeneratorExit`, an exception whose "
            "argument has a failing `repr()` and one carrying an integer too large to render as text.",
-    "C09": "Built as designed. Custom-class cases additionally include a class whose bare name equals a built-in exception's.",
+    "C09": "Built as designed. Custom-class cases additionally include a class whose bare name equals a built-in exception's; the "
+           "sender's two 'route locally' switches are set for the class that is *not* being raised; hostile payloads also name an "
+           "attribute that a loaded module imports on demand (module `__getattr__`) - this found the import repaired in 0ac3fca.",
     "C10": "Built with Hypothesis step lists instead of a `RuleBasedStateMachine` (same thing, simpler replay). Lendable objects are builtin "
            "lists only (no nested INSPECT while unboxing; that path is covered by C01 where it found a defect). `use` and `pass back` are "
            "issued asynchronously so that no step ever blocks; a constructive sub-generator guarantees crossings (evidence counts them). "
@@ -81,10 +84,13 @@ ASBUILT = {
            "for 're-send races with the serving thread processing the release notice'. A third of the histories use the *inspect* "
            "variant: lendable objects are instances of fresh classes, so the holder must ask for each class's description the first "
            "time a reference arrives; a pump task then delivers packets FIFO while the holder waits, which makes the holder dispatch "
-           "other requests *nested* inside the unboxing of the first (two proxies of one object being built at once).",
+           "other requests *nested* inside the unboxing of the first (two proxies of one object being built at once). A further step "
+           "fetches an object with an expiry that passes before the answer (a reference) is delivered: nobody will ever hold it, so the "
+           "owner must not keep it.",
     "C11": "Built as designed plus a small real-socket part (a thread blocked in `serve()` on a loopback socket while another closes "
            "the connection) and `before_closed` hooks that succeed, fail locally or fail in a remote call (close() may then raise what "
-           "the hook raised, but the side must end up closed, finalised once, with empty tables). Specifics: faults are *incoming stream ends at byte k*, *outgoing write fails at byte k* and "
+           "the hook raised, but the side must end up closed, finalised once, with empty tables); the disconnect hook may take virtual "
+           "time, so that other threads of that side run while it does. Specifics: faults are *incoming stream ends at byte k*, *outgoing write fails at byte k* and "
            "*poll fails at index i* (an I/O error and an end-of-stream are indistinguishable at the Stream contract; the difference is "
            "C05's); positions are every operation boundary and {1, middle, last} inside every read/write of a recorded clean run. The quick "
            "tier runs a fixed 1-in-5 stride plus every second write fault, the thorough tier all plans (≈ 4 100). `serve()`/`wait()` are "
@@ -106,14 +112,17 @@ ASBUILT = {
            "come in three kinds (BgServingThread, a `serve()` loop, a `poll()` loop that never queues behind the receive lock), and a "
            "caller's completion callback may raise in whichever thread dispatches the reply.",
     "C15": "Built as designed for a single requester thread, plus a part in which another thread holds the receive lock while the "
-           "timeout expires (the waiter must still give up at its deadline and the late reply must still land). Ties, negative timeouts and cases with a time-consuming unrelated handler are held to the universal clauses only "
+           "timeout expires (the waiter must still give up at its deadline and the late reply must still land), and a part in which the "
+           "requester keeps no reference to the result, only its callbacks (which must still run exactly once). Ties, negative timeouts and cases with a time-consuming unrelated handler are held to the universal clauses only "
            "(the evidence counts exact vs. universal-only comparisons).",
     "C16": "Built as designed on real sockets (`vlib/servers.py`); the forking server runs in a helper process. Added a *barrage* scenario "
            "(more failing clients than pool workers), a service whose disconnect hook takes 0.15 s (the next client arrives while the "
            "previous one is being cleaned up - this exposed a descriptor re-use defect of the thread-pool server, §3), a service whose "
            "constructor takes 0.1 s together with two well-behaved clients arriving at the same time, and an ownership oracle: the "
            "connection a client is served on carries that client's own endpoints and credentials (the authenticator hands out "
-           "per-client credentials).",
+           "per-client credentials). Well-behaved clients lend a class (fresh per scenario) that the server calls back; an *impostor* "
+           "client claims the same class name and identifier and describes it wrongly - what the server learns from it must stay on "
+           "its own connection.",
     "C17": "Built as designed; the forking server is audited through its helper process (descriptor count of the parent). Added *flash* "
            "clients (connect and reset at once, several times), *close during accept* (a harness-side wrapper around the listener lets "
            "`close()` run to completion between the listener handing out a late client's connection and the accept loop seeing it; "
@@ -260,6 +269,11 @@ for n in sorted(os.listdir(seeded)):
     st = "superseded by a repair" if str(m.get("status", "")).startswith("superseded") else m.get("apply_on_head", "")
     rows.append("| %s | %s | %s | %s |" % (n, st, needs, det_s.replace("|", "/")))
 REASONS = {
+    "C15-m7": "makes a NEGATIVE timeout expire at once instead of never; the statement does not say what a negative timeout means "
+              "(the pinned code treats it as 'no expiry', the documentation reads 'seconds relative to now'), so C15 holds negative "
+              "timeouts to the universal clauses only and does not call either behaviour a violation",
+    "C15-m8": "needs a preemption INSIDE one source line of add_callback (between loading the list attribute and calling append); "
+              "the simulation kernel preempts at line granularity (stated assumption of C13)",
     "C09-m5": "needs two threads serving two failing requests on ONE connection at the same time (the shared traceback slot); C09's "
               "generated cases are single-threaded on the serving side and C13's concurrent clients never fail remotely",
 }
@@ -296,18 +310,20 @@ NOT_CAUGHT = (SUMMARY + "Not caught by any check (stated limits of the machinery
               ". Two round-1 changes (`C11-m1`, `C17-m2`) no longer break their property after a repair made the tree tolerant of them.")
 s += """## 9. Seeded changes (independent sub-agents) and which checks catch them
 
-120 changes were written by fresh sub-agents that saw only one property's text and a scratch worktree: round 1 two per property
-(`m1`, `m2`), rounds 2 and 3 two more each (`m3`/`m4`, `m5`/`m6`) by new sub-agents that were additionally given a one-line list of
+144 changes were written by fresh sub-agents that saw only one property's text and a scratch worktree: round 1 two per property
+(`m1`, `m2`), rounds 2 and 3 two more each (`m3`/`m4`, `m5`/`m6`), round 4 (`m7`/`m8`) for twelve properties, by new sub-agents that were additionally given a one-line list of
 the *ideas* already used for that property (no code, nothing from /verif) so that they would look elsewhere. Each was confirmed by me (demo fails with the patch, passes without, the repository's 57 tests still pass with it) before being kept
-under `seeded/<ID>-m<i>/`; `tools/seeded_run.py` re-validates all of them against the current /repo HEAD (eleven patches were
-rebased by hand after repairs changed their context - originals kept as `patch.orig.diff`; two no longer break the property
+under `seeded/<ID>-m<i>/`; `tools/seeded_run.py` re-validates all of them against the current /repo HEAD (fifteen patches were
+rebased (3-way or by hand) after repairs changed their context - originals kept as `patch.orig.diff`; two no longer break the property
 because a repair made the tree tolerant of them) and runs the property's own check plus related ones against a scratch worktree (`VERIF_REPO`), never against /repo.
 
 | change | applies to HEAD | needs, in order to manifest | quick-tier result |
 |---|---|---|---|
 """ + "\n".join(rows) + """
 
-A change counts as caught when *some* registered check reports it in its quick tier (a change written against one property
+Detections by the real-socket checks (C16, C17) depend on real time: `C16-m3` (a descriptor number re-used while the previous
+connection is still being finalised) was reported in five of six runs and missed once while a thorough-tier run was using all
+cores; the quick tier of those checks should be run on an otherwise idle machine. A change counts as caught when *some* registered check reports it in its quick tier (a change written against one property
 often breaks a neighbouring one first; the result column shows which). Checks strengthened because a seeded change was missed
 at first (each time by widening the generator or adding an oracle the property's text supports, never by special-casing the
 change): C01 named tuples / class arguments; C02 non-reflexive `__eq__`, self comparison, long `buffiter` chunks, state-dependent
@@ -318,8 +334,10 @@ C11 real-socket close, same-side overlapping close, `before_closed` hooks; C12 b
 callbacks; C14 single-caller preemption before `wait()`, poll() receivers, raising callbacks; C15 held receive lock; C16 slow
 hooks, simultaneous clients, per-client configuration; C17 close during accept, coalesced child exits, wrapping authenticator,
 poll registrations; C18 real loopback, notification order, failing reply transmission; C19 lone surrogates; C20 snapshots at
-return, second transfer, NUL contents, sibling temp names. Three of these extensions exposed genuine defects of the pinned tree
-(pool descriptor re-use, `close()` with a wrapping authenticator, lost completion callback), all repaired (§3).
+return, second transfer, NUL contents, sibling temp names; round 4 added C05 error kinds, C09 route-locally switches, C10 late
+fetch, C11 yielding hook, C15 unretained results, C16 impostor class. Four of these extensions exposed genuine defects of the
+pinned tree (pool descriptor re-use, `close()` with a wrapping authenticator, lost completion callback, on-demand import while
+loading an exception), all repaired (§3).
 
 """ + NOT_CAUGHT + """
 ## 10. Sensitivity runs with deliberate breakages
